@@ -20,6 +20,38 @@ let out_iset l = out_z (List.concat_map (fun (a, b) -> [a; b]) l)
 let out_on l = String.concat " " (List.map (function None -> "nan" | Some n -> string_of_int (int_of_nat n)) l)
 let out_b b = if b then "1" else "0"
 
+(* history: each argument is one operation "K ints : ints" *)
+let parse_op s =
+  let parts = String.split_on_char ':' s in
+  let head = List.filter (fun x -> x <> "") (String.split_on_char ' ' (List.nth parts 0)) in
+  let l1 = if List.length parts > 1 then zs (List.nth parts 1) else [] in
+  let l2 = if List.length parts > 2 then zs (List.nth parts 2) else [] in
+  let k = List.hd head in
+  let n i = nat_of_int (int_of_string (List.nth head i)) in
+  let z i = z_of_int (int_of_string (List.nth head i)) in
+  let mask = List.map (fun v -> int_of_z v <> 0) l1 in
+  match k with
+  | "MT" -> OpMkTs l1
+  | "MS" -> OpMkTsSup (l1, n 1)
+  | "ME" -> OpMkEp (l1, l2)
+  | "SU" -> OpSupport (n 1)
+  | "R" -> OpRestrict (n 1, n 2)
+  | "G" -> OpGet (n 1, z 2, z 3)
+  | "C" -> OpCount (n 1, n 2, z 3)
+  | "V" -> OpValueFrom (n 1, n 2, n 3)
+  | "T" -> OpThreshold (n 1, mask)
+  | "D" -> OpDropna (n 1, mask)
+  | "U" -> OpUnion (n 1, n 2)
+  | "I" -> OpInter (n 1, n 2)
+  | "F" -> OpDiff (n 1, n 2)
+  | "TS" -> OpTimeSpan (n 1)
+  | "DS" -> OpDropShort (n 1, z 2)
+  | "MC" -> OpMergeClose (n 1, z 2)
+  | _ -> failwith ("bad op " ^ k)
+let out_obj = function
+  | OTs x -> "T " ^ out_z x.t_ ^ " / " ^ out_iset x.sup_
+  | OEp e -> "E " ^ out_iset e
+
 let run op a =
   let g i = List.nth a i in
   match op with
@@ -50,6 +82,7 @@ let run op a =
   | "get_closest" -> out_n [get_closest (List.hd (zs (g 0))) (zs (g 1))]
   | "trial_tensor" -> String.concat "|" (List.map out_z (to_trial_tensor (List.hd (ints (g 0)) <> 0) (z_of_int (-1)) (zs (g 1)) (zs (g 2)) (iset (g 3))))
   | "trial_count" -> String.concat "|" (List.map out_n (trial_count_rows (zs (g 0)) (iset (g 1)) (List.hd (zs (g 2)))))
+  | "history" -> String.concat "|" (List.map out_obj (Model.run (List.map parse_op a)))
   | _ -> "ERR unknown op " ^ op
 
 let () =
